@@ -227,6 +227,24 @@ def replay(crate, i, d, mm, widths_fn):
     reps = sorted(set(comp.part.representative(c) for c in range(comp.part.n)))
     base = conc['input']
     script = conc['script']
+    if mm['what'].startswith('next() calls itself'):
+        # long runs of the lexemes the witness skips inside one call: a recursive next() overflows its stack
+        ctor = 1 if d.str_input else 0
+        tried = 0
+        for k in range(1, len(base) + 1):
+            unit = list(base[:k])
+            for sep in [[]] + [[r] for r in reps[:8]]:
+                piece = unit + sep
+                reps_n = 400000 // max(1, len(piece))
+                long_in = piece * reps_n
+                line = C.drv_line(i, mm['rho'], False, conc['err'], 1, ctor, 255, script + [0] * 8, long_in)
+                out1 = crate.native_run([line], timeout=120)
+                tried += 1
+                if not out1 or out1[0] in ('HANG', 'NOOUTPUT'):
+                    return True, {'input': unit + sep, 'input_text': '%r repeated %d times' % (''.join(chr(x) for x in piece), reps_n), 'start_rule_set': d.rs_names()[mm['rho']],
+                                  'native': 'the process dies (stack overflow) or does not return during the first next() call', 'repeat': reps_n, 'piece': piece,
+                                  'how': 'driver line: module %d, start %d, one call, input = piece repeated' % (i, mm['rho'])}
+        return False, 'next() is recursive on the witness input, but none of %d long inputs built from it overflowed the native stack' % tried
     sufs = [()]
     for k in (1, 2, 3):
         if len(reps) ** k > 600:
